@@ -123,6 +123,10 @@ func sel(e ast.Expr) string {
 		return x.Name
 	case *ast.SelectorExpr:
 		return sel(x.X) + "." + x.Sel.Name
+	case *ast.CallExpr:
+		return sel(x.Fun) + "()"
+	case *ast.IndexExpr:
+		return sel(x.X) + "[]"
 	}
 	return "?"
 }
